@@ -7,7 +7,9 @@
    below):
      (S1) no `let`/`var` initialiser is the literal nil (or a block ending in it),
      (S2) no operand of == / != is the literal nil,
-     (S3) no nested function item directly follows another nested function item.
+     (S3) in a run of consecutive nested function items no function mentions a function that
+          follows it in the run (forward reference: the typechecker declares the run together,
+          the evaluator binds the names one by one).
    main_fits: the entry function exists, its parameters are ints, one argument per parameter. *)
 From Coq Require Import ZArith NArith List Bool.
 From NV Require Import Src.Syntax Src.Eval Src.Types Src.Typecheck Src.TypecheckSpec
@@ -45,10 +47,12 @@ Print Assumptions core_type_safety_tc.
 (* preservation + progress for one evaluation: S types the cells (index -> type) for ever;
    env realises the context G in S; the state is typed by S.  The result is never RStuck, the
    final state is typed by an extension S' of S, a result cell has type t' in S' -- where t' = t
-   unless e is the nil literal, whose consumer picks the record type (accepts t' CNil). *)
-Theorem eval_type_safe : forall R genv fuel G e t k t' env st S r st',
-  HasType R G e (t, k) -> ready_expr e = true -> accepts t' t = true ->
-  env_ok genv S G env -> st_ok R genv S st ->
+   unless e is the nil literal, whose consumer picks the record type (accepts t' CNil).
+   P = names G declares that env does not bind yet (later functions of a run); e does not
+   mention them (part of ready_expr P e).  P = [] at the top level. *)
+Theorem eval_type_safe : forall R genv fuel G e t k t' env st S P r st',
+  HasType R G e (t, k) -> ready_expr P e = true -> accepts t' t = true ->
+  env_ok genv S G env P -> st_ok R genv S st ->
   eval genv fuel env st e = (r, st') ->
   r <> RStuck /\
   exists S', ext S st S' st' /\ st_ok R genv S' st' /\
@@ -56,9 +60,9 @@ Theorem eval_type_safe : forall R genv fuel G e t k t' env st S r st',
 Proof. exact TypeSafety.eval_type_safe. Qed.
 Print Assumptions eval_type_safe.
 
-Theorem eval_type_safe_nonnil : forall R genv fuel G e t k env st S r st',
-  HasType R G e (t, k) -> ready_expr e = true -> t <> Types.CNil ->
-  env_ok genv S G env -> st_ok R genv S st ->
+Theorem eval_type_safe_nonnil : forall R genv fuel G e t k env st S P r st',
+  HasType R G e (t, k) -> ready_expr P e = true -> t <> Types.CNil ->
+  env_ok genv S G env P -> st_ok R genv S st ->
   eval genv fuel env st e = (r, st') ->
   r <> RStuck /\
   exists S', ext S st S' st' /\ st_ok R genv S' st' /\
@@ -66,9 +70,9 @@ Theorem eval_type_safe_nonnil : forall R genv fuel G e t k env st S r st',
 Proof. exact TypeSafety.eval_type_safe_nonnil. Qed.
 Print Assumptions eval_type_safe_nonnil.
 
-Theorem eval_items_type_safe : forall R genv fuel G items t k t' env st S r st',
-  ItemsOk R ([] :: G) false None items (t, k) -> ready_items items = true -> accepts t' t = true ->
-  env_ok genv S G env -> st_ok R genv S st ->
+Theorem eval_items_type_safe : forall R genv fuel G items t k t' env st S P r st',
+  ItemsOk R ([] :: G) false None items (t, k) -> ready_items P items = true -> accepts t' t = true ->
+  env_ok genv S G env P -> st_ok R genv S st ->
   eval_items genv fuel env st items None = (r, st') ->
   r <> RStuck /\
   exists S', ext S st S' st' /\ st_ok R genv S' st' /\
@@ -76,11 +80,11 @@ Theorem eval_items_type_safe : forall R genv fuel G items t k t' env st S r st',
 Proof. exact TypeSafety.eval_items_type_safe. Qed.
 Print Assumptions eval_items_type_safe.
 
-Theorem handlers_type_safe : forall R genv fuel G ret cs call env st S ex r st',
+Theorem handlers_type_safe : forall R genv fuel G ret cs call env st S P ex r st',
   CatchesOk R G ret cs -> CallOk R G ret call ->
-  forallb (fun c => ready_items (snd c)) cs = true ->
-  match call with None => true | Some b => ready_items b end = true ->
-  env_ok genv S G env -> st_ok R genv S st ->
+  forallb (fun c => ready_items P (snd c)) cs = true ->
+  match call with None => true | Some b => ready_items P b end = true ->
+  env_ok genv S G env P -> st_ok R genv S st ->
   handlers genv fuel env st ex cs call = (r, st') ->
   r <> RStuck /\
   exists S', ext S st S' st' /\ st_ok R genv S' st' /\
@@ -100,6 +104,11 @@ Proof.
 Qed.
 Example ex_runs : run_program 50 ex_prog [5%Z] = OResult (Eval.CInt 0) [1%Z].
 Proof. exact TypeSafety.ex_prog_runs. Qed.
+(* a run of two function items, the second calling the first, is covered *)
+Example ex_run_hypotheses : tc_program ex_run = OK /\ eval_ready ex_run = true /\ main_fits ex_run [] = true.
+Proof. exact TypeSafety.ex_run_hyps. Qed.
+Example ex_run_result : run_program 50 ex_run [] = OResult (Eval.CInt 5) [].
+Proof. exact TypeSafety.ex_run_runs. Qed.
 
 (* each side condition is needed: accepted by the model typechecker, stuck in the evaluator *)
 Example side_condition_S1_needed :
